@@ -319,8 +319,12 @@ class C08(Prop):
         cases.append(mk_case(ids, ['verdict', 'playerRaises', 'verdict', 'bare', 'playerRaises'], 'both', True, 2, 0.5, rng=rng))
         ids, kinds = fill(4, {rng.randint(0, 2): rng.choice(['hangTermIgnored', 'hangTermHandled'])})
         cases.append(mk_case(ids, kinds, 'ded', rng.random() < .5, rng.randint(1, 3), 0.5, rng=rng))
+        # kept results (expected / actual re-extracted by the parent): every in-process failure kind right after a success and
+        # right before one, in both modes - a failed recording carries nothing of its neighbours
+        for k in ('extractorRaises', 'playerRaises', 'comparatorRaises', 'bare'):
+            cases.append(mk_case(['r0', 'r1', 'r2', 'r3'], ['verdict', k, 'verdict', k], 'both', True, rng.randint(2, 4), 0.5, rng=rng))
         # random sequences
-        n_ded, n_in = (0, 16) if tier == 'quick' else (270, 300)
+        n_ded, n_in = (0, 40) if tier == 'quick' else (270, 400)
         weights = ['verdict'] * 4 + ['bare', 'playerRaises', 'extractorRaises', 'comparatorRaises', 'exit', 'hang', 'late',
                                      'hangTermIgnored']
         for _ in range(n_ded):
